@@ -12,140 +12,160 @@ PREV = {
   "the vector count sanity bound in the decoder scaled by the in-memory element size",
   "the encoder skipping nil pointer/interface members of a present flag group",
   "Marshal returning bytes of a pooled buffer",
-  "the flags placeholder of the encoder inserted at slot 0 instead of FlagIndex()"
+  "the flags placeholder of the encoder inserted at slot 0 instead of FlagIndex()",
+  "the decoder removing a vector hint from its queue only after the hinted vector was read (nested hinted vectors)"
  ],
  "C02": [
   "one header byte of the long-string length in the TL encoder",
   "the flags word written right after the constructor id instead of at its schema position",
   "a pre-allocation length check in PopMessage that counts padding for already aligned strings",
   "Marshal returning bytes of a pooled buffer",
-  "two same-width fields of ServerDHInnerData reordered"
+  "two same-width fields of ServerDHInnerData reordered",
+  "the encoder treating every bool of a flag group as carried by its bit (flags.N?Bool loses its Bool word)"
  ],
  "C03": [
   "the padding amount computed in ige.Encrypt",
   "the auth_key_id taken from a cached field instead of being derived from the key in use",
   "msg_id parity tested with % 4 instead of & 3 (negative ids refused)",
   "isPacketEncrypted looking at only 4 bytes of the key id",
-  "the declared-length bound of DeserializeEncrypted rewritten with >= (body that fills the packet refused)"
+  "the declared-length bound of DeserializeEncrypted rewritten with >= (body that fills the packet refused)",
+  "a sticky-error check added after the body read in DeserializeEncrypted (empty body refused)"
  ],
  "C04": [
   "the integer type used in the declared-length check of DeserializeEncrypted",
   "errors.Wrap of a nil error in the msg_key mismatch branch (refusal returns nil, nil)",
   "the block-length validation moved out of the cipher methods into wrappers that Decrypt does not use",
   "binary.LittleEndian.Uint64 applied to a possibly nil PopRawBytes result in DeserializeUnencrypted",
-  "the body taken as the rest of the packet instead of the declared length"
+  "the body taken as the rest of the packet instead of the declared length",
+  "the key-id comparison moved into the msg_key failure branch"
  ],
  "C05": [
   "the bound of the padding-strip loop in DecryptMessageWithTempKeys",
   "the length check accepting zero-length input",
   "the &15 dropped from the padding of the message-level Encrypt wrapper",
   "SHA1(new_nonce+new_nonce) computed over the minimal-length Bytes() in generateTempKeys",
-  "a deferred wipe zeroing the chaining blocks of the IGE cipher after each call"
+  "a deferred wipe zeroing the chaining blocks of the IGE cipher after each call",
+  "the message-level Encrypt appending its padding to the caller's slice in place"
  ],
  "C06": [
   "the byte width used for the salt derived from server_nonce",
   "the fingerprint search keeping only the last comparison result",
   "an over-strict length/ordering check on the transmitted bytes of g_a",
   "an int64 conversion of pq inside SplitPQ",
-  "new_nonce_hash1 compared as hex strings of minimal-length Bytes()"
+  "new_nonce_hash1 compared as hex strings of minimal-length Bytes()",
+  "the outer % 16 dropped from the padding of EncryptMessageWithTempKeys"
  ],
  "C07": [
   "a wrong variable in one of the nonce comparisons of makeAuthKey",
   "new_nonce_hash1 compared by suffix against a minimal-length byte string",
   "SetAuthKey persisting the session before the last reply is checked",
   "DecryptMessageWithTempKeys returning the untrimmed message when no SHA-1 prefix matches",
-  "a deferred reset of service mode that also runs on the error exits"
+  "a deferred reset of service mode that also runs on the error exits",
+  "a deferred recover in makeAuthKey that shadows err and returns nil"
  ],
  "C08": [
   "a shift amount in the abridged length header writer",
   "the short-count check placed before the error check in the intermediate reader",
   "a maximum-length check in the abridged reader comparing words with bytes",
   "the intermediate writer coalescing header and body in a too-small fixed buffer",
-  "large bodies read with a single conn.Read bypassing the full-read helper"
+  "large bodies read with a single conn.Read bypassing the full-read helper",
+  "the intermediate reader handing out a window of a reused receive buffer"
  ],
  "C09": [
   "registering the response waiter after the request was written",
   "delivering the result with a non-blocking select/default send",
   "the table Add method writing the map under the read lock",
   "the container decoder reusing one message object for all items",
-  "the gzip loop dropping the bytes returned together with io.EOF"
+  "the gzip loop dropping the bytes returned together with io.EOF",
+  "a \"msg_id not newer than the last one\" filter at the top of processResponse"
  ],
  "C10": [
   "an early return that skips the acknowledgement in processResponse",
   "resetting seq_no to zero on every (re)connect",
   "reading the clock twice in GenerateMessageId",
   "container items processed in goroutines that capture the loop variable",
-  "acknowledgements written outside the send lock"
+  "acknowledgements written outside the send lock",
+  "the same stale-msg_id filter in readMsg, dropping messages before they are acknowledged"
  ],
  "C11": [
   "skipping the waiter notification when the new salt was already adopted",
   "registering a response channel for every outgoing message including acknowledgements",
   "closing the channel in the table Delete method",
   "the waiter repeating the request in place and returning whatever comes back unexamined",
-  "the file store skipping the write when the session equals the one cached at Load"
+  "the file store skipping the write when the session equals the one cached at Load",
+  "adopting and saving the new salt only when a waiter is registered under bad_msg_id"
  ],
  "C12": [
   "opening the session file without truncation in Store",
   "skipping the disk write when the session equals the cached last-read value",
   "restoring the stored hostname only when no ServerHost is configured",
   "Load returning the cached session when the file fails to parse",
-  "the session directory probed with os.Lstat (symlinked directory refused)"
+  "the session directory probed with os.Lstat (symlinked directory refused)",
+  "Load reading the session file through io.LimitReader"
  ],
  "C13": [
   "two parameters swapped in one generated method signature",
   "encoded_in_bitflags added to the tag of a flags.N?Bool field",
   "the marker method of one constructor renamed so that it implements the wrong boxed type",
   "one method asserting a single constructor instead of its boxed result type",
-  "two same-typed fields of NewSessionCreated swapped"
+  "two same-typed fields of NewSessionCreated swapped",
+  "a hand-written wrapper method sending the bare query for one argument value"
  ],
  "C14": [
   "the vector-ness of a parameter dropped from the generator's argument grouping test",
   "an operator-precedence slip in the parser re-typing every parameter named flags",
   "generated files opened for writing without truncation",
   "the parser refusing flag bit 31 through an off-by-one range check",
-  "the registry list deciding the Obj suffix with a different predicate than the declaration"
+  "the registry list deciding the Obj suffix with a different predicate than the declaration",
+  "a sort over a copy whose comparator indexes the original slice"
  ],
  "C15": [
   "an integer overflow in the vector size bound of the decoder",
   "the gzip decompression loop exiting only on io.EOF",
   "the per-message error check of the container loop moved after the loop",
   "the no-hints guard testing nil instead of length zero",
-  "a failed hinted vector returned as a non-nil wrapper with nil data (nil reflect.Type dereference)"
+  "a failed hinted vector returned as a non-nil wrapper with nil data (nil reflect.Type dereference)",
+  "an unsynchronised package-level cache map written from parseTag"
  ],
  "C16": [
   "waiting on the goroutine wait-group from inside the reading goroutine on disconnect",
   "delivering bare pongs through writeRPCResponse and returning its not-found error",
   "registering the waiter only after a successful write",
   "new_session_created waking every older waiter (send on a channel nobody reads)",
-  "Reconnect clearing the encrypted flag so that a new key exchange runs"
+  "Reconnect clearing the encrypted flag so that a new key exchange runs",
+  "UnwrapNativeTypes applied in the default arm of processResponse (nil reflect.Type on bare null)"
  ],
  "C17": [
   "an extra row in the error-prefix table",
   "cutting the parameter out by index arithmetic instead of TrimPrefix/TrimSuffix",
   "a handled PHONE_MIGRATE falling through to return the original error",
   "a catalogue fast path in RpcErrorToNative that bypasses the prefix table",
-  "the default data-centre table hoisted into a shared package variable"
+  "the default data-centre table hoisted into a shared package variable",
+  "registering the response waiter after the write in sendPacket"
  ],
  "C18": [
   "the 256-byte padding dropped on one SRP intermediate value",
   "the exponent a+u*x reduced modulo p",
   "the password trimmed of white space in the exported wrapper",
   "B < p checked with bytes.Compare on the transmitted bytes",
-  "a cached big.Int multiplier mutated in place by k.Mul(k, v)"
+  "a cached big.Int multiplier mutated in place by k.Mul(k, v)",
+  "validateCurrentAlgo applied to the already padded/truncated B"
  ],
  "C19": [
   "a math/rand fallback when crypto/rand fails",
   "a time-seeded *rand.Rand passed as the reader argument of crypto/rand.Int",
   "the nonce helper switched to go-dry RandomBytes (math/rand)",
   "server-supplied secure_random overwriting the crypto/rand bytes of the SRP ephemeral",
-  "an out-of-range DH exponent clamped to a public constant"
+  "an out-of-range DH exponent clamped to a public constant",
+  "tl.NewInt256() (zero) used instead of tl.RandomInt256() for new_nonce"
  ],
  "C20": [
   "lower-casing the whole URL path before template matching",
   "matching templates against the escaped path",
   "strings.TrimLeft of the slashes before splitting the path into segments",
   "decoding the URL query into the result object after the path was mapped",
-  "the error path of Resolve calling String() on the nil URL"
+  "the error path of Resolve calling String() on the nil URL",
+  "fixURLHost cutting the host at the last slash"
  ]
 }
 TASK = 'You are helping test a verification framework by writing ONE realistic defect into a Go library. Work ONLY inside the git worktree /tmp/seed/{ID}-{R} (a checkout of the pure-Go MTProto/Telegram client library xelaj/mtproto). Do NOT read or write anything under /verif, /repo or /root/.vp, and do not look at other directories under /tmp/seed. Do NOT use `git stash` (the stash is shared with other worktrees): to run something without your change use `git diff > /tmp/seed/{ID}-{R}.patch; git apply -R /tmp/seed/{ID}-{R}.patch; ...; git apply /tmp/seed/{ID}-{R}.patch`.\n\nThe property the library is supposed to satisfy is in /tmp/seed/{ID}-{R}.prop.txt - read it first, then read the source files it names (and whatever they call).\n\nEnvironment (every shell call): `export GOFLAGS=-mod=mod GOPROXY=off GOSUMDB=off GOTOOLCHAIN=local` (no network, nothing can be downloaded). The repository has three Go modules: `.`, `internal/cmd/tlgen`, `telegram/deeplinks`. The existing test suite is: `for m in . internal/cmd/tlgen telegram/deeplinks; do (cd /tmp/seed/{ID}-{R}/$m && go test -vet=off -count=1 ./...) || echo FAILED; done` (building package telegram takes about a minute).\n\nTask: make ONE small, realistic change to the non-test source (the kind of slip, "simplification", "optimisation", "hardening", refactoring or well-meant "fix" a hurried maintainer could plausibly make and a reviewer could plausibly miss) such that the property NO LONGER HOLDS for some input / path / schedule / history, while (a) everything still compiles in all three modules and (b) the existing test suite still passes, unedited. Prefer a defect that needs something specific to manifest (a particular value shape, boundary, rare path, interleaving or error condition) over one that breaks every use. Keep the change minimal (1-12 lines). Previous testers already tried these: {PREV}. Choose a DIFFERENT place and mechanism from all of them. Go through the clauses of the property statement and its quantifier one by one, list which clause each earlier attempt attacked, and pick a clause (or a helper function, a caller, an initialisation, a cleanup path) nobody has touched; the less obvious the better, as long as the property is genuinely broken.\n\nDeliver, all inside /tmp/seed/{ID}-{R}:\n1. the change itself, left uncommitted in the worktree (source files only);\n2. a demonstration: NEW test file(s) named zz_seed_demo_test.go in the package(s) concerned (same-package tests may use unexported identifiers), test names starting with TestSeed, that FAIL with your change and PASS on the original code - verify both yourself; it must be deterministic (or repeat enough to be reliable) and finish within a minute; use fake connections/servers/in-memory pipes where needed, never the network;\n3. /tmp/seed/{ID}-{R}/SEED.md describing: what you changed and where, why it breaks the property, what it needs in order to manifest, and the exact commands you ran with their results.\n\nFinish by reporting: the output of `git -C /tmp/seed/{ID}-{R} diff` (source change only), the demo file path(s), and the observed results of the runs (suite with change, demo with change, demo without change). If your first idea turns out to be caught by the existing tests, try another. If, while reading, you notice something in the UNCHANGED code that already violates the property, mention it briefly at the end of your report (do not use it as your seed).\n'
